@@ -274,11 +274,18 @@ def run_case(case: dict, stop_first: bool = True) -> CaseResult:
     decl = case["decl"]
     tmpl, ops, reject = make_template(ctx, case)
     res.reject = reject
+    if reject and pg.has_expr(reject["op"]) and not reject["parametrized"]:
+        res.fails.append(Fail("becomes-parametrized",
+                              f"a call with arguments over declared variables raised {reject['err']} as if it were "
+                              f"concrete: the sequence did not become parametrized ({reject['op']['k']})", {}))
     res.nstored = len(tmpl._to_build_calls)
     res.nprefix = len(tmpl._calls) - 1
     for c in tmpl._to_build_calls:
         res.ops_stored[c.name] += 1
     if not tmpl.is_parametrized():
+        if any(pg.has_expr(op) for op in ops):
+            res.fails.append(Fail("becomes-parametrized", "calls with variable arguments were accepted but the "
+                                  "sequence is not parametrized", {}))
         return res
     snap0 = pg.template_snapshot(tmpl, ctx)
     by_tag: dict = {}
@@ -289,10 +296,13 @@ def run_case(case: dict, stop_first: bool = True) -> CaseResult:
         qubits = dict(b["qubits"]) if case["mappable"] else None
         res.builds += 1
         try:
-            with warnings.catch_warnings():
+            with warnings.catch_warnings(), pg.time_limit(20):
                 warnings.simplefilter("ignore")
                 built = tmpl.build(qubits=qubits, **kwargs) if qubits is not None else tmpl.build(**kwargs)
             bstat = None
+        except pg.Timeout as e:
+            res.fails.append(Fail("build-returns", f"build {bi}: {e}", {}))
+            break
         except Exception as e:  # noqa: BLE001
             built, bstat = None, pg.classify(e)
         dctx, ids = direct_ctx(ctx, b.get("qubits"))
@@ -464,7 +474,7 @@ def lean_obligations():
     if not ok:
         raise InfraError("lake build failed:\n" + out[-3000:])
     thms = common.property_theorems(PROP)
-    bad = common.lean_forbidden_tokens()
+    bad = pg.forbidden_in_closure(TARGETS)
     if bad:
         raise InfraError("forbidden tokens in Lean sources: " + "; ".join(bad[:5]))
     axioms = common.audit_axioms(f"Properties.{PROP}", thms) if thms else {}
